@@ -23,19 +23,38 @@ fn main() {
         "controlled runtime: interleavings at the granularity of synchronisation operations, sequentially consistent atomics, no spurious wake-ups; notify_one wakes any one waiter; timeouts fire in deadline order at schedule-chosen moments",
         "a deadlock report after every oracle was evaluated (a minimum-pool worker parked without timeout at teardown) is tolerated and counted as teardown-leftover",
     ];
+    // systematic schedule sweeps (sched.rs): quick = every schedule with one deviation from the
+    // default one, thorough = with up to two (cut at a budget per configuration)
+    let sweep_depth: usize = if cli.thorough { 2 } else { 1 };
+    let sweep_cap: u64 = if cli.thorough { 120_000 } else { 6_000 };
+    let sweep_cases: u64 = if cli.thorough { 96 } else { 32 };
     let (rule, assumptions): (&str, Vec<&str>) = match cli.property.as_str() {
         "C08" => {
             parts.push(make_part("sched-pool", "SCHED", cli.cases(6_000, 300_000), || pool::pool_strategy(12), |_| (), |_, c| pool::run_pool_case(c)));
             parts.push(make_part("sched-server", "SCHED", cli.cases(2_500, 100_000), || server::server_strategy(9, false), |_| (), |_, c| server::run_server_case("C08", c)));
+            parts.push(make_part("sweep-pool", "SCHED", sweep_cases, || pool::pool_strategy(7), |_| (), move |_, c| {
+                sched::sweep_verdict(sweep_depth, sweep_cap, &|t| {
+                    let mut c2 = c.clone();
+                    c2.tape = t.to_vec();
+                    pool::run_pool_case(&c2)
+                })
+            }));
             (
-                "part sched-pool: TaskPool alone under the controlled scheduler: N=1..12 long-lived tasks (each announces itself, then blocks until all N have started), optional warm-up burst and idle phase (virtual time) before, generated arrival pattern and schedule tape; oracle: all N run at the same time (otherwise: exact deadlock report), each task body exactly once; non-trivial: N >= 5, distinct by case and executed decision trace; part sched-server: the whole Server over the in-memory listener: bursts of 1-9 keep-alive connections each sending 1-2 requests, 1-2 application threads answering, every client waits for its own responses while all the others stay open and closes only after all have theirs, optionally 1-3 further connections stalled in the middle of a request head for the whole run; oracle: completes (otherwise exact deadlock report), each connection gets exactly its own responses",
+                "part sched-pool: TaskPool alone under the controlled scheduler: N=1..12 long-lived tasks (each announces itself, then blocks until all N have started), optional warm-up burst and idle phase (virtual time) before, generated arrival pattern and schedule tape; oracle: all N run at the same time (otherwise: exact deadlock report), each task body exactly once; non-trivial: N >= 5, distinct by case and executed decision trace; part sched-server: the whole Server over the in-memory listener: bursts of 1-9 keep-alive connections each sending 1-2 requests, 1-2 application threads answering, every client waits for its own responses while all the others stay open and closes only after all have theirs, optionally 1-3 further connections stalled in the middle of a request head for the whole run; oracle: completes (otherwise exact deadlock report), each connection gets exactly its own responses; in half of the cases the application threads hold their requests until each of them has one; part sweep-pool: for each generated pool configuration (N <= 7) every schedule with one (quick) / up to two (thorough) deviations from the default schedule",
                 sched_assumptions,
             )
         }
         "C01" => {
             parts.push(make_part("sched-conn", "SCHED", cli.cases(6_000, 300_000), convsched::c01_strategy, |_| (), |_, c| convsched::c01_oracle(c, &convsched::run_sched_conv(c))));
+            parts.push(make_part("sweep-conn", "SCHED", sweep_cases, convsched::c01_strategy, |_| (), move |_, c| {
+                sched::sweep_verdict(sweep_depth, sweep_cap, &|t| {
+                    let mut c2 = c.clone();
+                    c2.tape = t.to_vec();
+                    convsched::c01_oracle(&c2, &convsched::run_sched_conv(&c2))
+                })
+            }));
             (
-                "part sched-conn: the real ClientConnection over an in-memory connection under the controlled scheduler: 2-5 pipelined requests, per request respond (sizes around the 1 KiB write buffer, identity and chunked) / raw writer in parts with or without flush / drop, requests grouped onto handler tasks (own task each, or several held by one task in arrival order), a generated permutation in which handlers enter their answer, generated segmentation and schedule tape; oracle: the bytes written parse into exactly one message per request, in request order, bodies byte-exact, then end-of-stream; blocked-forever = exact deadlock report; non-trivial: the order in which handlers entered their answer has >= 1 inversion; distinct by case and executed decision trace",
+                "part sched-conn: the real ClientConnection over an in-memory connection under the controlled scheduler: 2-5 pipelined requests, per request respond (sizes around the 1 KiB write buffer, identity and chunked) / raw writer in parts with or without flush / drop, requests grouped onto handler tasks (own task each, or several held by one task in arrival order), a generated permutation in which handlers enter their answer, generated segmentation and schedule tape; oracle: the bytes written parse into exactly one message per request, in request order, bodies byte-exact, then end-of-stream; blocked-forever = exact deadlock report; part sweep-conn: the same cases under every schedule with one (quick) / up to two (thorough) deviations from the default schedule; non-trivial: the order in which handlers entered their answer has >= 1 inversion; distinct by case and executed decision trace",
                 sched_assumptions,
             )
         }
@@ -45,8 +64,22 @@ fn main() {
             parts.push(make_part("sched-server", "SCHED", cli.cases(1_500, 80_000), || server::server_strategy(6, false), |_| (), |_, c| server::run_server_case("C07", c)));
             parts.push(make_part("seq-model", "SCHED", cli.cases(4_000, 200_000), queue::seq_strategy, |_| (), |_, c| queue::run_seq_case_for("C07", c)));
             parts.push(make_part("sched-queue-edge", "SCHED", cli.cases(6_000, 300_000), queue::edge_strategy, |_| (), |_, c| queue::run_edge_case("C07", c)));
+            parts.push(make_part("sweep-queue-hold", "SCHED", sweep_cases, queue::c07_hold_strategy, |_| (), move |_, c| {
+                sched::sweep_verdict(sweep_depth, sweep_cap, &|t| {
+                    let mut c2 = c.clone();
+                    c2.tape = t.to_vec();
+                    queue::run_queue_case("C07", &c2)
+                })
+            }));
+            parts.push(make_part("sweep-queue-edge", "SCHED", sweep_cases, queue::edge_strategy, |_| (), move |_, c| {
+                sched::sweep_verdict(sweep_depth, sweep_cap, &|t| {
+                    let mut c2 = c.clone();
+                    c2.tape = t.to_vec();
+                    queue::run_edge_case("C07", &c2)
+                })
+            }));
             (
-                "part sched-queue: MessagesQueue alone under the controlled scheduler: 1-3 pusher tasks (1-4 elements each, generated yields) x 1-3 receiver tasks with generated operation lists over recv / recv_timeout(0,5,50 ms virtual) / try_recv, schedule tape; oracle: received multiset = pushed (no loss, no duplicate), wire order for a single receiver, nothing left queued; lost wake-up = exact deadlock report while main waits for the count; part sched-queue-hold: 2-4 receivers that each take one request and stay busy with it (a long handler) while at most as many requests arrive in bursts: a request left queued while another receiver is still blocked deadlocks the scenario; part sched-server: the whole Server over the in-memory listener with application threads receiving through recv / recv_timeout / try_recv / the incoming_requests iterator: every connection gets exactly its own responses (each request delivered to exactly one thread, answered once); part seq-model: single-task histories of push / unblock / try_recv / recv_timeout / recv against a reference model: every queued request comes out, in order, as soon as no unblock is pending before it (a poller is never starved by a stale unblock marker); non-trivial: pushers+receivers >= 3 and a receiver really parked on the queue's condition variable",
+                "part sched-queue: MessagesQueue alone under the controlled scheduler: 1-3 pusher tasks (1-4 elements each, generated yields) x 1-3 receiver tasks with generated operation lists over recv / recv_timeout(0,5,50 ms virtual) / try_recv, schedule tape; oracle: received multiset = pushed (no loss, no duplicate), wire order for a single receiver, nothing left queued; lost wake-up = exact deadlock report while main waits for the count; part sched-queue-hold: 2-4 receivers that each take one request and stay busy with it (a long handler) while at most as many requests arrive in bursts: a request left queued while another receiver is still blocked deadlocks the scenario; part sched-server: the whole Server over the in-memory listener with application threads receiving through recv / recv_timeout / try_recv / the incoming_requests iterator: every connection gets exactly its own responses (each request delivered to exactly one thread, answered once); part seq-model: single-task histories of push / unblock / try_recv / recv_timeout / recv against a reference model: every queued request comes out, in order, as soon as no unblock is pending before it (a poller is never starved by a stale unblock marker); part sched-queue-edge: one-shot recv_timeout receivers (1 / 2 / 5 ms) beside 1-3 receivers blocked in recv(), 1-4 pushes and unblock calls at offsets of 0-5.1 ms in steps down to 0.1 ms (virtual time): every element is received although a timed receiver may give up at the very moment it is woken, never more releases than unblock calls; parts sweep-queue-hold / sweep-queue-edge: the same scenarios under every schedule with one (quick) / up to two (thorough) deviations from the default schedule; non-trivial: pushers+receivers >= 3 and a receiver really parked on the queue's condition variable",
                 sched_assumptions,
             )
         }
@@ -54,8 +87,15 @@ fn main() {
             parts.push(make_part("sched-queue", "SCHED", cli.cases(8_000, 400_000), queue::c17_queue_strategy, |_| (), |_, c| queue::run_queue_case("C17", c)));
             parts.push(make_part("seq-model", "SCHED", cli.cases(8_000, 400_000), queue::seq_strategy, |_| (), |_, c| queue::run_seq_case(c)));
             parts.push(make_part("sched-queue-edge", "SCHED", cli.cases(6_000, 300_000), queue::edge_strategy, |_| (), |_, c| queue::run_edge_case("C17", c)));
+            parts.push(make_part("sweep-queue", "SCHED", sweep_cases, queue::c17_queue_strategy, |_| (), move |_, c| {
+                sched::sweep_verdict(sweep_depth, sweep_cap, &|t| {
+                    let mut c2 = c.clone();
+                    c2.tape = t.to_vec();
+                    queue::run_queue_case("C17", &c2)
+                })
+            }));
             (
-                "part sched-queue: (a) counting: 1-4 receivers using recv() only, 0-2 pushers, u generated unblock() calls at generated moments then topped up to one per receiver: #recv errors <= #unblock calls at every return, = #receivers at the end, elements conserved and ordered; (b) mixed recv/recv_timeout/try_recv lists with unblocks in flight: conservation, try_recv performs zero waits on the condition variable; (c) timed receivers only: an empty-handed recv_timeout(T) takes >= T-1 ms and (single timer source) <= 2T of virtual time; part seq-model: single-task histories of push/unblock/try_recv/recv_timeout/recv against a reference model (FIFO of requests + count of pending unblocks): requests come out in order, an empty-handed return with a request queued uses up exactly one unblock, totals match, timed bounds exact; non-trivial: an unblock issued and a receiver really parked (sched-queue) / a receive executed with both a request and an unblock pending (seq-model)",
+                "part sched-queue: (a) counting: 1-4 receivers using recv() only, 0-2 pushers, u generated unblock() calls at generated moments then topped up to one per receiver: #recv errors <= #unblock calls at every return, = #receivers at the end, elements conserved and ordered; (b) mixed recv/recv_timeout/try_recv lists with unblocks in flight: conservation, try_recv performs zero waits on the condition variable; (c) timed receivers only: an empty-handed recv_timeout(T) takes >= T-1 ms and (single timer source) <= 2T of virtual time; part seq-model: single-task histories of push/unblock/try_recv/recv_timeout/recv against a reference model (FIFO of requests + count of pending unblocks): requests come out in order, an empty-handed return with a request queued uses up exactly one unblock, totals match, timed bounds exact; part sched-queue-edge as in C07 with the release accounting; part sweep-queue: the sched-queue scenarios under every schedule with one (quick) / up to two (thorough) deviations from the default schedule; non-trivial: an unblock issued and a receiver really parked (sched-queue) / a receive executed with both a request and an unblock pending (seq-model)",
                 sched_assumptions,
             )
         }
